@@ -130,10 +130,15 @@ func withAnon(f *ssa.Function, out *[]*ssa.Function, seen map[*ssa.Function]bool
 	}
 }
 
-func c16Freshness(c *Ctx) {
-	c.Rule("C16.R6", func() {
+func c16Freshness(c *Ctx) { exportFreshness(c, "C16.R6") }
+
+func exportFreshness(c *Ctx, rule string, only ...string) {
+	c.Rule(rule, func() {
 		eff := c.W.BuildEffects()
 		for _, m := range []struct{ name, pkg string }{{"ophost", hostKeeper}, {"opchild", childKeeper}} {
+			if len(only) > 0 && !setOf(only...)[m.name] {
+				continue
+			}
 			exp := c.Method(m.pkg, "Keeper", "ExportGenesis")
 			var fns []*ssa.Function
 			seen := map[*ssa.Function]bool{}
@@ -141,7 +146,7 @@ func c16Freshness(c *Ctx) {
 				withAnon(f, &fns, seen)
 			}
 			withAnon(exp, &fns, seen)
-			o := c.Ob("C16.R6", m.name+" ExportGenesis: slices placed in exported records are created by the activation that builds the record; captured accumulators are only appended to (no record shares a backing array with another)")
+			o := c.Ob(rule, m.name+" ExportGenesis: slices placed in exported records are created by the activation that builds the record; captured accumulators are only appended to (no record shares a backing array with another)")
 			sites, bad, notes := scanRecordAliasing(fns)
 			o.Sites = sites
 			for _, n := range notes {
